@@ -294,3 +294,88 @@ pub fn replay(idx: usize, rec: &Value, workdir: &str) -> Value {
                         "real": {"result": real.result, "delivered": real.delivered.iter().map(|d| d.0.clone()).collect::<Vec<_>>()}},
            "files": if viols.is_empty() { Value::Null } else { json!(files_json) }})
 }
+
+// ---------------------------------------------------------------------------
+// Binding B for Loader.tla: record the loader's own events (core/src/load.rs under
+// --cfg okane_verif) while it loads the file trees of TLC-generated behaviours, on
+// both file systems, and write them as a trace that spec/LoaderTrace.tla validates
+// action by action.  Paths are rewritten into the specification's representation
+// (component and character sequences relative to the tree's top); nothing else is
+// derived.
+// ---------------------------------------------------------------------------
+fn path_json(strip: &str, p: &str) -> Value {
+    let rel = p.strip_prefix(strip).map(|s| s.trim_start_matches('/')).unwrap_or(p);
+    // the real file system's glob hands back `dir/../name` for a pattern that goes up; the loader canonicalises it
+    // when it enters the file, the specification's paths are canonical throughout: `x/..` is removed lexically
+    let mut parts: Vec<&str> = Vec::new();
+    for c in rel.split('/') {
+        if c == ".." && !parts.is_empty() { parts.pop(); } else if c != "." { parts.push(c); }
+    }
+    Value::Array(parts.iter().map(|c| Value::Array(c.chars().map(|ch| json!(ch.to_string())).collect())).collect())
+}
+
+fn record_events<F: load::FileSystem>(loader: load::Loader<F>, strip: &str, out: &mut Vec<Value>) {
+    okane_core::verif::start();
+    let r = loader.load(|_p: &Path, _ctx, _e: &syntax::plain::LedgerEntry| Ok::<(), load::LoadError>(()));
+    let events = okane_core::verif::take();
+    for line in events {
+        let mut v: Value = serde_json::from_str(&line).expect("loader event is JSON");
+        let p = v["path"].as_str().unwrap().to_string();
+        v["path"] = path_json(strip, &p);
+        if let Some(ms) = v.get("matches").cloned() {
+            v["matches"] = Value::Array(ms.as_array().unwrap().iter().map(|m| path_json(strip, m.as_str().unwrap())).collect());
+        }
+        out.push(v);
+    }
+    out.push(json!({"ev": "end", "result": if r.is_ok() { "ok" } else { "err" }, "error": r.err().map(|e| load_err_class(&e)).unwrap_or_default()}));
+}
+
+pub fn trace_main(args: &[String]) {
+    let mut input = None;
+    let mut output = None;
+    let mut limit = usize::MAX;
+    let mut stride = 1usize;
+    let mut i = 0;
+    while i < args.len() {
+        match args[i].as_str() {
+            "--in" => { input = Some(args[i + 1].clone()); i += 1; }
+            "--out" => { output = Some(args[i + 1].clone()); i += 1; }
+            "--limit" => { limit = args[i + 1].parse().unwrap(); i += 1; }
+            "--stride" => { stride = args[i + 1].parse().unwrap(); i += 1; }
+            _ => {}
+        }
+        i += 1;
+    }
+    let workdir = std::env::var("VH_WORK").unwrap_or_else(|_| "/verif/.work".to_string());
+    let text = std::fs::read_to_string(input.expect("--in")).unwrap();
+    let mut out: Vec<Value> = Vec::new();
+    let mut runs = 0usize;
+    for (idx, line) in text.lines().enumerate() {
+        if idx % stride != 0 || line.trim().is_empty() { continue; }
+        if runs >= limit { break; }
+        let rec: Value = serde_json::from_str(line).unwrap();
+        let tree = build(&rec, idx % BASES.len());
+        let fs_event = json!({"ev": "fs", "root": rec["root"], "fs": rec["fs"], "record": idx, "expect": rec["expect"]["status"]});
+        // in-memory file system
+        let prefix = "/vr";
+        let fake_files: Vec<(String, String)> = tree.files.iter().map(|(r, t)| (format!("{}/{}", prefix, r), t.clone())).collect();
+        let mut e = fs_event.clone();
+        e["on"] = json!("memory");
+        out.push(e);
+        record_events(fake_loader(&fake_files, &format!("{}/{}", prefix, tree.root)), prefix, &mut out);
+        // real file system
+        let dir = PathBuf::from(&workdir).join(format!("lt{}_{}", std::process::id(), idx));
+        materialise(&dir, &tree);
+        let dir_c = std::fs::canonicalize(&dir).unwrap();
+        let strip = dir_c.to_string_lossy().to_string();
+        let mut e = fs_event.clone();
+        e["on"] = json!("real");
+        out.push(e);
+        record_events(load::new_loader(dir_c.join(&tree.root)).with_error_renderer(annotate_snippets::Renderer::plain()), &strip, &mut out);
+        let _ = std::fs::remove_dir_all(&dir);
+        runs += 1;
+    }
+    let body: Vec<String> = out.iter().map(|v| v.to_string()).collect();
+    std::fs::write(output.expect("--out"), body.join("\n") + "\n").unwrap();
+    println!("{}", json!({"runs": runs * 2, "events": out.len()}));
+}
